@@ -25,7 +25,7 @@ def gen_histories(ctx, n, family, label):
         if o.get("driver_error"):
             from ..vlib import core
             raise core.Machinery("kernel driver failed on generated history: %s" % o["driver_error"])
-    tr = [{"scripts": o["scripts"], "log": o["log"]} for o in out]
+    tr = [{"scripts": o["scripts"], "log": o["log"], "final": o["final"]} for o in out]
     stuck = ctx.validate("KernelTrace", "KernelTrace.cfg", "kernel", tr, shard=120)
     ctx.events += sum(len(t["log"]) for t in tr)
     import json
